@@ -13,6 +13,7 @@ desc() { case "$1" in
  C03) echo "comment lost / duplicated / code swallowed: comment at a position the formatter does not anticipate (trailing trivia assumed inline; transplant sites carrying 2 of 4 trivia slots)";;
  C04) echo "long-bracket string value changes when line-ending normalisation meets a lone CR";;
  C06) echo "not idempotent: layout decision taken on the input text (removed parentheses, input spans) / comment at an unanticipated position / CRLF comment trivia";;
+ C07) echo "formatting time grows exponentially with the nesting depth of calls that take a function argument: trial formatting in the call-argument heuristics is repeated at every level";;
  C08) echo "ignored text not verbatim";;
  C09) echo "out-of-range text not verbatim";;
  C10) echo "comment re-attached without passing through the token formatter (raw trivia copy): its line endings / position are not normalised";;
